@@ -2,12 +2,15 @@ package main
 
 import (
 	"bytes"
+	"context"
 	"fmt"
+	"math"
 	"os"
 	"os/exec"
 	"path/filepath"
 	"sort"
 	"strings"
+	"time"
 
 	"golang.org/x/perf/benchfmt"
 	"golang.org/x/perf/benchmath"
@@ -401,7 +404,7 @@ func hasWarning(ws []error, sub string) bool {
 }
 
 // c14Case builds the Sx case from one in-process run plus the binary's outputs.
-func c14Case(run *bsRun, csvAgree, textAgree bool) hx.Sx {
+func c14Case(run *bsRun, csvAgree, textAgree bool, csvTabs []ppCsvTable) hx.Sx {
 	var meas []hx.Sx
 	for _, m := range run.meas {
 		meas = append(meas, hx.L(hx.I(m[0].(int)), hx.I(m[1].(int)), hx.I(m[2].(int)), hx.I(m[3].(int)), hx.F64(m[4].(float64))))
@@ -500,18 +503,28 @@ func c14Case(run *bsRun, csvAgree, textAgree bool) hx.Sx {
 		sm := assumptionOf(g[0]).Summary(s, run.confidence)
 		osum = append(osum, hx.L(hx.L(hx.I(g[0]), bsF64s(s.Values)), hx.L(hx.F64(sm.Center), hx.F64(sm.Lo), hx.F64(sm.Hi))))
 	}
+	// the first column of every table (a comparison of samples holding a NaN is only repeated here when the real
+	// ToTables made it too, i.e. against the first column: on code without the NaN guard any other one would not return)
+	firstCol := map[int]int{}
+	for ti, t := range run.tables.Tables {
+		firstCol[run.tid[run.tables.Keys[ti]]] = run.cid[t.Cols[0]]
+	}
 	for _, a := range gkeys {
 		for _, b := range gkeys {
 			if a[0] == b[0] && a[1] == b[1] && a[2] != b[2] {
+				if (c14HasNaN(samples[a].Values) || c14HasNaN(samples[b].Values)) && firstCol[a[0]] != a[2] {
+					continue
+				}
 				cmp := assumptionOf(a[0]).Compare(samples[a], samples[b])
 				ocmp = append(ocmp, hx.L(hx.L(hx.I(a[0]), bsF64s(samples[a].Values)), bsF64s(samples[b].Values),
 					hx.L(hx.F64(cmp.P), hx.I(cmp.N1), hx.I(cmp.N2), hx.F64(cmp.Alpha))))
 			}
 		}
 	}
+	stat, sosum, socmp := c14Stat(run, csvTabs)
 	return hx.L(hx.List(meas), hx.List(sortedIDs(run.tkeys, run.tid)), hx.List(sortedIDs(run.rkeys, run.rid)),
 		hx.List(sortedIDs(run.ckeys, run.cid)), hx.List(resvals), hx.List(fields), hx.List(obs),
-		hx.List(osum), hx.List(ocmp), hx.Bool(csvAgree), hx.Bool(textAgree))
+		hx.List(osum), hx.List(ocmp), hx.Bool(csvAgree), hx.Bool(textAgree), stat, sosum, socmp)
 }
 
 // buildBenchstat builds the real cmd/benchstat binary from the module under test.
@@ -577,7 +590,7 @@ func runBinary(exe, dir string, in bsInput, format string, env []string) (string
 }
 
 func genC14(o *hx.Out, r *hx.Rng, tier string, replay string) error {
-	o.Rule = "generated benchstat inputs: 1-3 files (labelled / duplicate paths), 1-3 configuration blocks, 1-5 benchmarks with sub-name keys and GOMAXPROCS, 1-3 units with and without Unit metadata, 1-14 samples, missing cells, x flag grid (-table/-row/-col/-ignore/-filter/-alpha/-confidence); run through cmd/benchstat's pipeline in process (observing benchtab.Tables) and through the real binary (csv and text). non-trivial = at least two cells; distinct by file contents+flags. SECOND KIND (tag 7, c14p.go): flag strings + file texts only (1-3 files, config keys changing/deleted between results, units needing Tidy, /key=value names with -N, repeated and interleaved benchmarks, malformed lines, CR, unterminated last line, one over-long line) x grid of -filter/-table/-row/-col/-ignore values incl. bad flags; observed: the real binary (csv parsed back, stderr) and benchtab.Tables in process; the composed model recomputes everything from texts and flags"
+	o.Rule = "generated benchstat inputs: 1-3 files (labelled / duplicate paths), 1-3 configuration blocks, 1-5 benchmarks with sub-name keys and GOMAXPROCS, 1-3 units with and without Unit metadata, 1-14 samples, missing cells, x flag grid (-table/-row/-col/-ignore/-filter/-alpha/-confidence); run through cmd/benchstat's pipeline in process (observing benchtab.Tables) and through the real binary (csv and text). non-trivial = at least two cells; distinct by file contents+flags. 45% of the inputs are widened (c14Widen): one benchmark of the first file all zero (zero baseline centres), NaN/+Inf/-Inf/-2.5/0/1e300/1e-290 sprinkled over 12% of the values, or one benchmark of one file filled with +Inf/NaN/-7/0/-Inf/1e300; plus fixed witnesses (NaN in a compared cell, +Inf centre followed by / after another row, ratios [+Inf,1], 0/0 and 100/0 from testdata/zero.txt, negative and zero ratios, asymmetric significant deltas, three files). An input holding a NaN is first run through the real binary under a watchdog (ulimit -v, 10 s): no normal termination = case (8). Every case carries the statistics block judged by Corr/StatC14.v (cells: centre, interval, comparison, the delta string of the binary's csv; summary row with its three warnings and ratio string; oracles by direct benchmath calls). Tag C14_geomean_inf_order: some column's centres or ratios are all positive yet the running mean of their logarithms (simulated) is NaN. SECOND KIND (tag 7, c14p.go): flag strings + file texts only (1-3 files, config keys changing/deleted between results, units needing Tidy, /key=value names with -N, repeated and interleaved benchmarks, malformed lines, CR, unterminated last line, one over-long line) x grid of -filter/-table/-row/-col/-ignore values incl. bad flags; observed: the real binary (csv parsed back, stderr) and benchtab.Tables in process; the composed model recomputes everything from texts and flags"
 	exe, err := buildBenchstat(false)
 	if err != nil {
 		return err
@@ -591,16 +604,22 @@ func genC14(o *hx.Out, r *hx.Rng, tier string, replay string) error {
 		return err
 	}
 	defer os.RemoveAll(dir)
-	for i := 0; i < n; i++ {
-		rr := r.Split()
-		in, fl := genBsInput(rr)
+	one := func(in bsInput, fl bsFlags, class string) error {
 		if err := writeBsFiles(dir, in); err != nil {
 			return err
+		}
+		o.Count("class:" + class)
+		key := fmt.Sprint(in)
+		if c14Hangs(exe, dir, in) {
+			// the real binary does not terminate: nothing else can be observed (and the in-process run would not return)
+			o.Count("hang")
+			o.Add(hx.L(hx.I(8)), in, key, true)
+			return nil
 		}
 		run := runBenchstatInProc(dir, in, fl)
 		if run.err != nil {
 			o.Count("pipeline-error")
-			continue
+			return nil
 		}
 		// the binary must print exactly what the in-process tables render to
 		var wantCSV, wantCSVErr, wantText bytes.Buffer
@@ -610,6 +629,10 @@ func genC14(o *hx.Out, r *hx.Rng, tier string, replay string) error {
 		gotText, _, _ := runBinary(exe, dir, in, "text", nil)
 		csvAgree := gotCSV == wantCSV.String()
 		textAgree := gotText == wantText.String()
+		csvTabs, csvOK := ppParseCSV(gotCSV)
+		if !csvOK {
+			csvAgree = false
+		}
 		ncells := 0
 		for _, t := range run.tables.Tables {
 			ncells += len(t.Cells)
@@ -622,9 +645,405 @@ func genC14(o *hx.Out, r *hx.Rng, tier string, replay string) error {
 		if strings.Contains(wantText.String(), "benchmark set differs") {
 			o.Count("has-set-warning")
 		}
-		key := fmt.Sprint(in)
-		o.Add(c14Case(run, csvAgree, textAgree), in, key, ncells >= 2)
+		c14CountClasses(o, run, "")
+		var tags []string
+		if c14InfOrder(run) {
+			tags = append(tags, "C14_geomean_inf_order")
+			o.Count("inf-order")
+		}
+		o.Add(c14Case(run, csvAgree, textAgree, csvTabs), in, key, ncells >= 2, tags...)
+		return nil
+	}
+	for i := 0; i < n; i++ {
+		rr := r.Split()
+		in, fl := genBsInput(rr)
+		class := "plain"
+		if rr.Chance(0.45) {
+			class = c14Widen(rr, &in)
+		}
+		if err := one(in, fl, class); err != nil {
+			return err
+		}
+	}
+	for _, w := range c14Witnesses() {
+		if err := one(w, bsFlags{alpha: -1, confidence: -1}, "witness"); err != nil {
+			return err
+		}
 	}
 	// second kind of case: flag strings + file texts against the composed model (c14p.go)
 	return genC14Pipeline(o, r, tier, exe)
+}
+
+// ---------- values that are not positive finite numbers ----------
+
+// c14Widen rewrites measurement values of a generated input (genBsInput itself is shared with C15 and stays as it
+// is): zero baselines, NaN / +Inf / -Inf / negative / huge / tiny values sprinkled or filling one benchmark of one file.
+func c14Widen(r *hx.Rng, in *bsInput) string {
+	type loc struct{ f, line, field int }
+	lines := make([][]string, len(in.Files))
+	var locs []loc
+	byBench := map[string][]loc{} // file:name
+	var benchKeys []string
+	for fi, f := range in.Files {
+		lines[fi] = strings.Split(f.Content, "\n")
+		for li, l := range lines[fi] {
+			fs := strings.Fields(l)
+			if len(fs) < 4 || !strings.HasPrefix(fs[0], "Benchmark") {
+				continue
+			}
+			for k := 2; k+1 < len(fs); k += 2 {
+				x := loc{fi, li, k}
+				locs = append(locs, x)
+				bk := fmt.Sprint(fi, ":", fs[0])
+				if _, ok := byBench[bk]; !ok {
+					benchKeys = append(benchKeys, bk)
+				}
+				byBench[bk] = append(byBench[bk], x)
+			}
+		}
+	}
+	if len(locs) == 0 {
+		return "plain"
+	}
+	set := func(x loc, v string) {
+		fs := strings.Fields(lines[x.f][x.line])
+		fs[x.field] = v
+		lines[x.f][x.line] = strings.Join(fs, " ")
+	}
+	specials := []string{"NaN", "+Inf", "-Inf", "-2.5", "0", "1e300", "1e-290", "Inf", "nan"}
+	class := ""
+	switch r.Intn(4) {
+	case 0: // one benchmark of the first file all zero: a zero baseline centre
+		class = "zero-base"
+		var ks []string
+		for _, k := range benchKeys {
+			if strings.HasPrefix(k, "0:") {
+				ks = append(ks, k)
+			}
+		}
+		if len(ks) == 0 {
+			ks = benchKeys
+		}
+		for _, x := range byBench[r.Pick(ks)] {
+			set(x, "0")
+		}
+	case 1: // sprinkled
+		class = "sprinkle"
+		for _, x := range locs {
+			if r.Chance(0.12) {
+				set(x, r.Pick(specials))
+			}
+		}
+	case 2: // one benchmark of one file filled with one special value
+		class = "fill"
+		v := r.Pick([]string{"+Inf", "+Inf", "NaN", "-7", "0", "-Inf", "1e300"})
+		for _, x := range byBench[r.Pick(benchKeys)] {
+			set(x, v)
+		}
+	default: // both
+		class = "fill+zero"
+		for _, x := range byBench[r.Pick(benchKeys)] {
+			set(x, "0")
+		}
+		v := r.Pick([]string{"+Inf", "NaN", "-7", "-Inf"})
+		for _, x := range byBench[r.Pick(benchKeys)] {
+			set(x, v)
+		}
+	}
+	for fi := range in.Files {
+		in.Files[fi].Content = strings.Join(lines[fi], "\n")
+	}
+	// a duplicated path keeps one content
+	for i := 1; i < len(in.Files); i++ {
+		if in.Files[i].Name == in.Files[0].Name {
+			in.Files[i].Content = in.Files[0].Content
+		}
+	}
+	return class
+}
+
+// c14Witnesses: fixed inputs for the classes the audit named.
+func c14Witnesses() []bsInput {
+	two := func(a, b string) bsInput {
+		return bsInput{Files: []bsFile{{Name: "f0.txt", Content: a}, {Name: "f1.txt", Content: b}}}
+	}
+	oneFile := func(a string) bsInput { return bsInput{Files: []bsFile{{Name: "f0.txt", Content: a}}} }
+	rep := func(line string, n int) string { return strings.Repeat(line+"\n", n) }
+	return []bsInput{
+		// a NaN measurement in a cell compared with a baseline (go-moremath's tie loop does not advance on NaN)
+		two("BenchmarkX 1 NaN sec/op\nBenchmarkX 1 2 sec/op\nBenchmarkX 1 1 sec/op\n", "BenchmarkX 1 4 sec/op\nBenchmarkX 1 2 sec/op\nBenchmarkX 1 1 sec/op\n"),
+		two("BenchmarkX 1 4 sec/op\nBenchmarkX 1 2 sec/op\n", "BenchmarkX 1 nan sec/op\nBenchmarkX 1 2 sec/op\nBenchmarkY 1 2 sec/op\n"),
+		// +Inf centre followed by another / last in the column
+		oneFile("BenchmarkA 1 +Inf sec/op\nBenchmarkB 1 1 sec/op\n"),
+		oneFile("BenchmarkA 1 1 sec/op\nBenchmarkB 1 Inf sec/op\n"),
+		two("BenchmarkA 1 1 sec/op\nBenchmarkB 1 1 sec/op\n", "BenchmarkA 1 +Inf sec/op\nBenchmarkB 1 1 sec/op\n"),
+		// zero baseline: 0/0 = 1, non-zero over zero uncomputable (testdata/zero.txt)
+		two("Unit y assume=exact\nBenchmarkN 1 0 y\nBenchmarkN2 1 0 y\nBenchmarkZ 1 0 x\nBenchmarkZ2 1 0 x\n", "BenchmarkN 1 100 y\nBenchmarkN2 1 100 y\nBenchmarkZ 1 0 x\nBenchmarkZ2 1 0 x\n"),
+		two("BenchmarkN 1 0 y\nBenchmarkM 1 5 y\n", "BenchmarkN 1 100 y\nBenchmarkM 1 10 y\n"),
+		// negative and zero ratios
+		two("Unit y assume=exact\nBenchmarkN 1 -4 y\nBenchmarkM 1 5 y\n", "BenchmarkN 1 2 y\nBenchmarkM 1 10 y\n"),
+		two("Unit y assume=exact\nBenchmarkN 1 4 y\nBenchmarkM 1 5 y\n", "BenchmarkN 1 0 y\nBenchmarkM 1 10 y\n"),
+		// a significant asymmetric delta: +100% one way, -50% the other
+		two(rep("BenchmarkX 1 1 sec/op", 6)+rep("BenchmarkY 1 3 sec/op", 6), rep("BenchmarkX 1 2 sec/op", 6)+rep("BenchmarkY 1 1 sec/op", 6)),
+		// three files: deltas are against the FIRST column, not the previous one
+		bsInput{Files: []bsFile{{Name: "f0.txt", Content: rep("BenchmarkX 1 1 sec/op", 6) + "BenchmarkY 1 1 sec/op\n"},
+			{Name: "f1.txt", Content: rep("BenchmarkX 1 2 sec/op", 6)}, {Name: "f2.txt", Content: rep("BenchmarkX 1 8 sec/op", 6) + "BenchmarkY 1 3 sec/op\n"}}},
+	}
+}
+
+func c14HasNaN(xs []float64) bool {
+	for _, x := range xs {
+		if math.IsNaN(x) {
+			return true
+		}
+	}
+	return false
+}
+
+// c14Hangs runs the real binary under a watchdog (10 s, 3 GB of address space) when a NaN measurement may be
+// present, and reports whether it failed to terminate normally within these limits.
+func c14Hangs(exe, dir string, in bsInput) bool {
+	nan := false
+	for _, f := range in.Files {
+		if strings.Contains(strings.ToLower(f.Content), "nan") {
+			nan = true
+		}
+	}
+	if !nan {
+		return false
+	}
+	args := []string{"-c", `ulimit -v 3000000; exec "$0" "$@"`, exe}
+	args = append(args, in.Flags...)
+	args = append(args, "-format", "csv")
+	for _, f := range in.Files {
+		p := filepath.Join(dir, f.Name)
+		if f.Label != "" {
+			p = f.Label + "=" + p
+		}
+		args = append(args, p)
+	}
+	ctx, cancel := context.WithTimeout(context.Background(), 10*time.Second)
+	defer cancel()
+	cmd := exec.CommandContext(ctx, "/bin/sh", args...)
+	cmd.Stdout, cmd.Stderr = nil, nil
+	err := cmd.Run()
+	if ctx.Err() != nil {
+		return true
+	}
+	if ee, ok := err.(*exec.ExitError); ok {
+		// benchstat's own failures exit with status 1; the runtime's out-of-memory abort with 2 (or a signal)
+		return ee.ExitCode() != 1
+	}
+	return false
+}
+
+// geoMeanSim is the running mean of logarithms go-moremath's GeoMean computes.
+func geoMeanSim(xs []float64) float64 {
+	if len(xs) == 0 {
+		return math.NaN()
+	}
+	m := 0.0
+	for i, x := range xs {
+		if x <= 0 {
+			return math.NaN()
+		}
+		m += (math.Log(x) - m) / float64(i+1)
+	}
+	return math.Exp(m)
+}
+
+func allPositive(xs []float64) bool {
+	for _, x := range xs {
+		if !(x > 0) {
+			return false
+		}
+	}
+	return len(xs) > 0
+}
+
+// c14ColumnLists: per table and column the centres in row order and, outside the first column, the per-row ratios
+// (ok=false: some ratio is uncomputable, a non-equal centre over a zero baseline centre).
+func c14ColumnLists(t *bt.Table, f func(ci int, centres, ratios []float64, ratiosOK bool)) {
+	for ci, col := range t.Cols {
+		var centres, ratios []float64
+		ok := true
+		for _, row := range t.Rows {
+			cell, has := t.Cells[bt.TableKey{Row: row, Col: col}]
+			if !has {
+				continue
+			}
+			a := cell.Summary.Center
+			centres = append(centres, a)
+			if ci == 0 {
+				continue
+			}
+			base, hasb := t.Cells[bt.TableKey{Row: row, Col: t.Cols[0]}]
+			if !hasb {
+				continue
+			}
+			b := base.Summary.Center
+			switch {
+			case a == b:
+				ratios = append(ratios, 1)
+			case b == 0:
+				ok = false
+			default:
+				ratios = append(ratios, a/b)
+			}
+		}
+		f(ci, centres, ratios, ok)
+	}
+}
+
+// c14InfOrder decides the input class of the recorded finding C14_geomean_inf_order by simulating the mechanism:
+// some column's centres (or ratios) are all positive, yet the running mean of their logarithms is NaN.
+func c14InfOrder(run *bsRun) bool {
+	hit := false
+	for _, t := range run.tables.Tables {
+		c14ColumnLists(t, func(ci int, centres, ratios []float64, ok bool) {
+			if allPositive(centres) && math.IsNaN(geoMeanSim(centres)) {
+				hit = true
+			}
+			if ci > 0 && ok && allPositive(ratios) && math.IsNaN(geoMeanSim(ratios)) {
+				hit = true
+			}
+		})
+	}
+	return hit
+}
+
+func c14CountClasses(o *hx.Out, run *bsRun, pre string) {
+	seen := map[string]bool{}
+	for _, t := range run.tables.Tables {
+		c14ColumnLists(t, func(ci int, centres, ratios []float64, ok bool) {
+			if !allPositive(centres) {
+				seen["col-centres-not-positive"] = true
+			}
+			if ci > 0 && !ok {
+				seen["col-ratio-uncomputable"] = true
+			}
+			if ci > 0 && ok && !allPositive(ratios) {
+				seen["col-ratios-not-positive"] = true
+			}
+			if ci > 0 && ok && allPositive(ratios) {
+				seen["col-ratio-geomean"] = true
+			}
+		})
+		for k, cell := range t.Cells {
+			if c14HasNaN(cell.Sample.Values) {
+				seen["cell-with-nan"] = true
+				if cell.Baseline != nil || (k.Col == t.Cols[0] && len(t.Cols) > 1) {
+					seen["nan-in-compared-cell"] = true
+				}
+			}
+			if cell.Baseline != nil && cell.Baseline.Summary.Center == 0 && cell.Summary.Center != 0 {
+				seen["delta-over-zero-base"] = true
+			}
+		}
+	}
+	var ks []string
+	for k := range seen {
+		ks = append(ks, k)
+	}
+	sort.Strings(ks)
+	for _, k := range ks {
+		o.Count(pre + k)
+	}
+}
+
+// c14Stat: per observed table every cell's statistics with the delta STRING the real binary printed for it (csv
+// parsed back), the summary row with its three warnings and the ratio string; and the oracles, direct benchmath calls
+// on the observed samples keyed by assumption (0 nothing, 1 exact) and sample content.
+func c14Stat(run *bsRun, csvTabs []ppCsvTable) (stat, sosum, socmp hx.Sx) {
+	var tabs, osum, ocmp []hx.Sx
+	seenSum := map[string]bool{}
+	seenCmp := map[string]bool{}
+	bitsKey := func(xs []float64) string {
+		var b strings.Builder
+		for _, x := range xs {
+			fmt.Fprintf(&b, "%x,", math.Float64bits(x))
+		}
+		return b.String()
+	}
+	for ti, t := range run.tables.Tables {
+		asm := 0
+		if t.Assumption == benchmath.AssumeExact {
+			asm = 1
+		}
+		var csvT *ppCsvTable
+		if ti < len(csvTabs) {
+			csvT = &csvTabs[ti]
+		}
+		deltaOf := func(ri, ci int) hx.Sx {
+			if csvT != nil {
+				for _, c := range csvT.cells {
+					if c.row == ri && c.col == ci && c.delta != "" {
+						return hx.L(hx.S(c.delta))
+					}
+				}
+			}
+			return hx.L()
+		}
+		var cells, sums []hx.Sx
+		newSample := func(cell *bt.TableCell) *benchmath.Sample {
+			th := run.thresholds
+			return benchmath.NewSample(append([]float64(nil), cell.Sample.Values...), &th)
+		}
+		for ri, row := range t.Rows {
+			var rowCells []*bt.TableCell
+			var rowCols []int
+			for ci, col := range t.Cols {
+				cell, ok := t.Cells[bt.TableKey{Row: row, Col: col}]
+				if !ok {
+					continue
+				}
+				rowCells = append(rowCells, cell)
+				rowCols = append(rowCols, ci)
+				cmp := hx.L()
+				if cell.Baseline != nil {
+					cmp = hx.L(hx.L(hx.F64(cell.Comparison.P), hx.I(cell.Comparison.N1), hx.I(cell.Comparison.N2), hx.F64(cell.Comparison.Alpha)))
+				}
+				cells = append(cells, hx.L(hx.I(ri), hx.I(ci), bsF64s(cell.Sample.Values),
+					hx.F64(cell.Summary.Center), hx.F64(cell.Summary.Lo), hx.F64(cell.Summary.Hi), cmp, deltaOf(ri, ci)))
+				s := newSample(cell)
+				if k := fmt.Sprint(asm, ":", bitsKey(s.Values)); !seenSum[k] {
+					seenSum[k] = true
+					sm := t.Assumption.Summary(s, run.confidence)
+					osum = append(osum, hx.L(hx.L(hx.I(asm), bsF64s(s.Values)), hx.L(hx.F64(sm.Center), hx.F64(sm.Lo), hx.F64(sm.Hi))))
+				}
+			}
+			for i, a := range rowCells {
+				for j, b := range rowCells {
+					if i == j {
+						continue
+					}
+					// a comparison of samples holding a NaN is repeated only where the real ToTables made it too
+					if (c14HasNaN(a.Sample.Values) || c14HasNaN(b.Sample.Values)) && rowCols[i] != 0 {
+						continue
+					}
+					sa, sb := newSample(a), newSample(b)
+					k := fmt.Sprint(asm, ":", bitsKey(sa.Values), "|", bitsKey(sb.Values))
+					if seenCmp[k] {
+						continue
+					}
+					seenCmp[k] = true
+					cmp := t.Assumption.Compare(sa, sb)
+					ocmp = append(ocmp, hx.L(hx.L(hx.I(asm), bsF64s(sa.Values)), bsF64s(sb.Values),
+						hx.L(hx.F64(cmp.P), hx.I(cmp.N1), hx.I(cmp.N2), hx.F64(cmp.Alpha))))
+				}
+			}
+		}
+		for ci, c := range t.Cols {
+			s := t.Summary[c]
+			rs := hx.L()
+			if csvT != nil && ci < len(csvT.ratios) && csvT.ratios[ci] != "" {
+				rs = hx.L(hx.S(csvT.ratios[ci]))
+			}
+			sums = append(sums, hx.L(hx.Bool(s.HasSummary), hx.F64(s.Summary), hx.Bool(s.HasRatio), hx.F64(s.Ratio),
+				hx.Bool(hasWarning(s.Warnings, "benchmark set differs")), hx.Bool(hasWarning(s.Warnings, "summaries must be >0")),
+				hx.Bool(hasWarning(s.Warnings, "ratios must be >0")), rs))
+		}
+		tabs = append(tabs, hx.L(hx.I(asm), hx.I(len(t.Rows)), hx.I(len(t.Cols)), hx.List(cells), hx.List(sums)))
+	}
+	return hx.List(tabs), hx.List(osum), hx.List(ocmp)
 }
